@@ -487,7 +487,7 @@ def gen_gp_spec(rng):
     return dict(seed=rng.randrange(10 ** 6), d=d, n=n, pending=rng.choice([0, 1, 2]), nf=rng.choice([1, 2, 3]),
                 head=rng.choice(["ei", "lcb", "eipu", "cei"]), kappa=rng.uniform(0.3, 3.0),
                 expo=rng.choice([1.0, 0.5]), jitter=rng.choice([0.01, 0.1]),
-                x=[rng.uniform(0.05, 0.95) for _ in range(d)])
+                x=[rng.uniform(0.05, 0.95) for _ in range(d)], normalize=rng.random() < 0.7)
 
 
 def build_gp_predictor(spec, metric, fn, seed_shift=0):
@@ -505,7 +505,8 @@ def build_gp_predictor(spec, metric, fn, seed_shift=0):
     state = create_tuning_job_state(hp_ranges=hp, cand_tuples=X, metrics=Y, pending_tuples=pend)
     oc = OptimizationConfig(lbfgs_tol=1e-3, lbfgs_maxiter=4, verbose=False, n_starts=1)
     gpm = default_gpmodel(state, random_seed=spec["seed"] + seed_shift, optimization_config=oc)
-    est = GaussProcEmpiricalBayesEstimator(active_metric=metric, gpmodel=gpm, num_fantasy_samples=spec["nf"])
+    est = GaussProcEmpiricalBayesEstimator(active_metric=metric, gpmodel=gpm, num_fantasy_samples=spec["nf"],
+                                           normalize_targets=spec.get("normalize", True))
     return est.fit_from_state(state, update_params=True)
 
 
@@ -538,6 +539,7 @@ def run_gp_acq(ctx, specs):
             g = np.asarray(g, dtype=float).reshape(-1)
             ctx.count(("gp_acq", spec), nontrivial=spec["pending"] > 0 and spec["nf"] > 1)
             ctx.h("gp_acq_head", head)
+            ctx.h("gp_acq_normalize_targets", spec.get("normalize", True))
             ctx.h("gp_acq_fantasies", spec["nf"] if spec["pending"] else 1)
             sig = dict(function="compute_acq_with_gradient", head=head)
             if not abs(v1 - float(v2)) <= 1e-10 * max(1.0, abs(v1)):
@@ -652,9 +654,9 @@ def run(ctx, replay=None):
         elif kind == "fit":
             run_fit_objective(ctx, [replay["spec"]])
         return
-    n_head = ctx.n(120, 2500)
+    n_head = ctx.n(250, 2500)
     specs = [gen_head_spec(rng, head) for head in ("ei", "lcb", "eipu", "cei") for _ in range(n_head)]
     run_heads(ctx, specs)
-    run_chol(ctx, [gen_chol_spec(rng) for _ in range(ctx.n(120, 2000))])
-    run_gp_acq(ctx, [gen_gp_spec(rng) for _ in range(ctx.n(60, 1200))])
-    run_fit_objective(ctx, [gen_fit_spec(rng) for _ in range(ctx.n(40, 600))])
+    run_chol(ctx, [gen_chol_spec(rng) for _ in range(ctx.n(200, 2000))])
+    run_gp_acq(ctx, [gen_gp_spec(rng) for _ in range(ctx.n(120, 1200))])
+    run_fit_objective(ctx, [gen_fit_spec(rng) for _ in range(ctx.n(80, 600))])
